@@ -163,6 +163,11 @@ func c04Try(t *engine.T, e c04Entry, kind string, in []byte) {
 			}
 		}
 		_ = fmt.Sprintf("%s %v %q %+v", v, v, v, v)
+		// every formatting verb (a Formatter that forwards an unknown verb to itself recurses until the stack is gone)
+		if chain {
+			_ = fmt.Sprintf("%#v %T %x %X %d %b %o %c %U %t %e %g %08.3f %p %10s %-10q % x", v, v, v, v, v, v, v, v, v, v, v, v, v, v, v, v, v)
+			c04FormatLeaves(v)
+		}
 		t.Ops(3)
 	}()
 }
@@ -281,6 +286,28 @@ func c04JSONSeeds(quick bool) (map[string][][]byte, [][]byte) {
 				bare := fmt.Sprintf(`{"id":"https://example.com/u/1","type":%q}`, typ)
 				add("interaction", []byte(`{"type":"Create","to":[`+one+`,`+two+`],"cc":[`+bare+`,`+one+`,"https://example.com/u/1"],"tag":[`+two+`,`+bare+`]}`))
 				add("interaction", []byte(`[`+one+`,`+bare+`,`+two+`]`))
+			}
+		}
+	}
+	// members of DIFFERENT kinds in one list (the decoder compares every new member with the ones already read): every ordered pair
+	// of kinds, with different ids and with the same id
+	{
+		kinds := []string{`"https://example.com/x%d"`, `{"type":"Note","id":"https://example.com/x%d","name":"n"}`, `{"type":"Person","id":"https://example.com/x%d"}`,
+			`{"type":"Like","id":"https://example.com/x%d","object":"https://example.com/o"}`, `{"type":"Collection","id":"https://example.com/x%d","items":["https://example.com/i"]}`,
+			`{"type":"OrderedCollectionPage","id":"https://example.com/x%d","partOf":"https://example.com/c"}`, `{"type":"Mention","id":"https://example.com/x%d","href":"https://example.com/h"}`,
+			`{"type":"Question","id":"https://example.com/x%d","oneOf":[{"type":"Note","name":"a"}]}`, `{"type":"Tombstone","id":"https://example.com/x%d","formerType":"Note"}`,
+			`{"id":"https://example.com/x%d"}`, `{"type":"Place","id":"https://example.com/x%d","latitude":1.5}`, `["https://example.com/x%d"]`}
+		for i, a := range kinds {
+			for j, b := range kinds {
+				for _, same := range []bool{false, true} {
+					ida, idb := 1, 2
+					if same {
+						idb = 1
+					}
+					_ = j
+					pair := fmt.Sprintf(a, ida) + "," + fmt.Sprintf(b, idb)
+					add("interaction", []byte(`{"type":"Create","id":"https://example.com/c`+fmt.Sprint(i)+`","to":[`+pair+`],"object":[`+pair+`]}`))
+				}
 			}
 		}
 	}
@@ -752,4 +779,56 @@ func c04Audit(p *engine.Parent) error {
 	p.Extra["decode_methods_in_tree"] = found
 	p.Extra["coverage_gaps"] = gaps
 	return nil
+}
+
+// c04FormatLeaves formats the language lists, entries, texts and tags found in the fields of a decoded value with every verb.
+func c04FormatLeaves(v any) {
+	rv := reflect.ValueOf(v)
+	for rv.Kind() == reflect.Pointer || rv.Kind() == reflect.Interface {
+		if rv.IsNil() {
+			return
+		}
+		rv = rv.Elem()
+	}
+	const verbs = "%s %v %+v %#v %q %x %X %d %b %o %c %U %t %e %g %p %T"
+	all := func(x any) {
+		_ = fmt.Sprintf(verbs, x, x, x, x, x, x, x, x, x, x, x, x, x, x, x, x, x)
+	}
+	switch n := rv.Interface().(type) {
+	case ap.NaturalLanguageValues:
+		all(n)
+		for _, e := range n {
+			all(e)
+			all(e.Value)
+			all(e.Ref)
+		}
+		return
+	case ap.LangRefValue:
+		all(n)
+		all(n.Value)
+		all(n.Ref)
+		return
+	case ap.Content, ap.LangRef, ap.IRI, ap.IRIs, ap.MimeType, ap.ActivityVocabularyType:
+		all(n)
+		return
+	}
+	if rv.Kind() != reflect.Struct {
+		return
+	}
+	for i := 0; i < rv.NumField(); i++ {
+		switch n := rv.Field(i).Interface().(type) {
+		case ap.NaturalLanguageValues:
+			all(n)
+			for _, e := range n {
+				all(e)
+				all(e.Value)
+				all(e.Ref)
+			}
+		case ap.IRI, ap.MimeType, ap.ActivityVocabularyType, ap.LangRef:
+			all(n)
+		case ap.Source:
+			all(n)
+			all(n.Content)
+		}
+	}
 }
